@@ -7,8 +7,10 @@ parse_qs, the parser's checks and setters), S = "parsing what was rendered gives
 """
 import urllib.parse
 
+import json
 from harness import common
 from harness.impl import magnet as mg
+from harness.impl import fsenv
 
 RULE = ('magnets = constructor keyword sets (hash in 4 notations and mixed case, with/without urn:btih:; names from '
         'a reserved-character / control-character / non-ASCII / non-BMP / percent-lookalike alphabet; xl up to 10^30; '
@@ -17,7 +19,10 @@ RULE = ('magnets = constructor keyword sets (hash in 4 notations and mixed case,
         'comparison, then every field of the parsed object is edited and the unchanged magnet is rendered and parsed a '
         'second time (same comparison); mangled links for the parser model (each parsed twice with an edit between); torrents (single/multi file, tiers, webseeds) -> magnet() -> '
         'str -> from_string -> torrent(), twice with edits of the parsed magnet / torrent between. non-trivial = the rendered link needs percent-quoting or has a multi-valued '
-        'parameter; distinct = distinct rendered link')
+        'parameter; distinct = distinct rendered link.'
+        ' Histories on one Magnet object (setters; in-place list/dict methods on tr, ws, kt, x through a getter call or a kept '
+        'reference; torrent(); no-op steps), judged after every step; torrent -> magnet -> torrent also per locale / file-system '
+        'encoding in child interpreters (ASCII fs, UTF-8 mode, stdio variants, shadowed latin-1 / koi8-r / gbk / cp1252 / shift_jis).')
 
 FIELDS = ('infohash', 'dn', 'xl', 'tr', 'xs', 'as_', 'ws', 'kt', 'x')
 
@@ -233,7 +238,16 @@ def m_name_newline(case, observed, finding):
                 dict(t, name=t['name'].replace('\n', ' ')) == o['back'])
 
 
-MATCHERS = {'as_underscore': m_as_underscore, 'x_dot': m_x_dot, 'blank_dropped': m_blank_dropped,
+def m_name_surrogate(case, observed, finding):
+    """D13f: the torrent's name contains a lone surrogate (what os.fsdecode makes of an undecodable file name), the torrent
+    is exportable, magnet() worked, and rendering the link raised exactly UnicodeEncodeError"""
+    t = case.get('torrent') or {}
+    o = observed if isinstance(observed, dict) else {}
+    return bool(case.get('kind') == 'torrent' and mg.has_surrogate(t.get('name') or '') and o.get('back') is None
+                and o.get('exc') == 'other:UnicodeEncodeError' and o.get('magnet_ok') is True and o.get('uri') is None)
+
+
+MATCHERS = {'name_surrogate': m_name_surrogate, 'as_underscore': m_as_underscore, 'x_dot': m_x_dot, 'blank_dropped': m_blank_dropped,
             'name_newline': m_name_newline}
 
 
@@ -357,6 +371,242 @@ def eval_magnets(ctx, drv, kws):
             ctx.corr_break('c13.parse', case, _munjson(mp['ok']), o['parsed'])
 
 
+# ------------------------------------------------------------------ histories on ONE magnet object
+# render / parse back / torrent() interleaved with edits through the setters AND in place on every container a getter
+# hands out (tr, ws: MonitoredList; kt: the stored plain list; x: the stored dict), through a fresh getter call or
+# through a reference the caller obtained earlier.  After EVERY step: Magnet.from_string(str(m)) must give back the
+# fields m has NOW, and str(m) must be the model's rendering of those fields (C13_render_history_independent).
+H_LIST_METHODS = ['append', 'insert', 'remove', 'pop', 'reverse', 'setitem', 'delitem', 'clear', 'extend', 'iadd']
+H_KT_ONLY = ['sort', 'setslice', 'imul']
+H_X_METHODS = ['setitem', 'delitem', 'pop', 'update', 'clear', 'setdefault']
+H_URLS = [u for u in URLS if not u.startswith(' ')] + ['http://edited.example/announce', 'udp://later.example:1/a', 'not a url', '']
+
+
+def gen_history(rng, findings_share=0.15):
+    kw = gen_kwargs(rng, findings_share=findings_share)
+    if rng.random() < 0.6 and 'kt' not in kw:
+        kw['kt'] = [rand_keyword(rng) for _ in range(rng.randint(1, 3))]
+    ops = []
+    for _ in range(rng.randint(2, 7)):
+        r = rng.random()
+        via = rng.choice(['getter', 'held'])
+        if r < 0.30:
+            meth = rng.choice(H_LIST_METHODS + H_KT_ONLY)
+            ops.append(['kt', via, meth, rng.randrange(8), [rand_keyword(rng) for _ in range(rng.randint(1, 2))]])
+        elif r < 0.50:
+            ops.append([rng.choice(['tr', 'ws']), via, rng.choice(H_LIST_METHODS), rng.randrange(8),
+                        [rng.choice(H_URLS) for _ in range(rng.randint(1, 2))]])
+        elif r < 0.58:
+            ops.append(['x', via, rng.choice(H_X_METHODS), rng.choice(['pe', 'k', 'Key', 'new']), rand_text(rng, 5)])
+        elif r < 0.88:
+            f = rng.choice(['dn', 'xl', 'xs', 'kt', 'tr', 'ws', 'infohash', 'xt'])
+            v = {'dn': lambda: rng.choice([None, rand_text(rng), rand_text(rng)]),
+                 'xl': lambda: rng.choice([None, 1, 7, 10 ** 20, 0]),
+                 'xs': lambda: rng.choice([None, rng.choice(H_URLS)]),
+                 'kt': lambda: rng.choice([None, rand_keyword(rng), [rand_keyword(rng) for _ in range(rng.randint(0, 3))]]),
+                 'tr': lambda: rng.choice([None, rng.choice(H_URLS), [rng.choice(H_URLS) for _ in range(rng.randint(0, 3))]]),
+                 'ws': lambda: rng.choice([None, [rng.choice(H_URLS) for _ in range(rng.randint(0, 2))]]),
+                 'infohash': lambda: rng.choice(['cd' * 20, 'VOV2XK5L' * 4, 'junk']),
+                 'xt': lambda: rng.choice(['urn:btih:' + 'EF' * 20, 'ef' * 20, 'urn:btih:'])}[f]()
+            ops.append(['set', f, v])
+        elif r < 0.94:
+            ops.append(['torrent'])
+        else:
+            ops.append(['noop'])                 # nothing changes: render / parse again
+    return {'kwargs': kw, 'ops': ops}
+
+
+def fixed_histories():
+    h = 'ab' * 20
+    out = []
+    for via in ('getter', 'held'):
+        for meth in H_LIST_METHODS + H_KT_ONLY:                     # every in-place method of the plain kt list
+            out.append({'kwargs': {'xt': h, 'kt': ['b', 'a', 'c']}, 'ops': [['noop'], ['kt', via, meth, 1, ['k1', 'k2']], ['noop']]})
+        for fld in ('tr', 'ws'):
+            for meth in H_LIST_METHODS:
+                out.append({'kwargs': {'xt': h, fld: ['http://b/2', 'http://a/1', 'http://c/3']},
+                            'ops': [['noop'], [fld, via, meth, 1, ['http://n/1', 'http://n/2']], ['noop']]})
+        for meth in H_X_METHODS:                                    # D13b while x is non-empty, must round-trip once it is empty
+            out.append({'kwargs': {'xt': h, 'x_pe': '1.2.3.4:5'}, 'ops': [['x', via, meth, 'pe', 'v'], ['x', via, 'clear', 'pe', ''], ['noop']]})
+    # a reference taken before a setter replaced the list: editing it must not reach the object any more
+    out.append({'kwargs': {'xt': h, 'kt': ['a']}, 'ops': [['set', 'kt', ['n1', 'n2']], ['kt', 'held', 'append', 0, ['late']], ['kt', 'getter', 'append', 0, ['x']]]})
+    out.append({'kwargs': {'xt': h, 'tr': ['http://a/1']}, 'ops': [['set', 'tr', ['http://n/1']], ['tr', 'held', 'append', 0, ['http://late/1']], ['noop']]})
+    out.append({'kwargs': {'xt': h, 'dn': 'n', 'kt': ['a']}, 'ops': [['kt', 'getter', 'append', 0, ['b']], ['set', 'dn', 'm'], ['kt', 'held', 'clear', 0, []], ['torrent'], ['noop']]})
+    return out
+
+
+def _apply_list(lst, meth, i, vals):
+    n = len(lst)
+    k = i % n if n else 0
+    if meth == 'append':
+        lst.append(vals[0])
+    elif meth == 'insert':
+        lst.insert(i % (n + 1), vals[0])
+    elif meth == 'remove':
+        lst.remove(lst[k]) if n else None
+    elif meth == 'pop':
+        lst.pop(k) if n else None
+    elif meth == 'reverse':
+        lst.reverse()
+    elif meth == 'sort':
+        lst.sort()
+    elif meth == 'setitem':
+        if n:
+            lst[k] = vals[0]
+        else:
+            lst.append(vals[0])
+    elif meth == 'delitem':
+        if n:
+            del lst[k]
+    elif meth == 'clear':
+        lst.clear()
+    elif meth == 'extend':
+        lst.extend(vals)
+    elif meth == 'iadd':
+        lst += vals                       # on the reference itself: in place, no setter of the magnet is called
+    elif meth == 'imul':
+        lst *= 2
+    elif meth == 'setslice':
+        lst[k:] = vals
+
+
+def _apply_dict(d, meth, k, v):
+    if meth == 'setitem':
+        d[k] = v
+    elif meth == 'delitem':
+        d.pop(k, None) if k not in d else d.__delitem__(k)
+    elif meth == 'pop':
+        d.pop(k, None)
+    elif meth == 'update':
+        d.update({k: v, 'u2': v + '2'})
+    elif meth == 'clear':
+        d.clear()
+    elif meth == 'setdefault':
+        d.setdefault(k, v)
+
+
+def _run_hist_chunk(cases):
+    torf = common.import_torf()
+    out = []
+    for c in cases:
+        try:
+            m = torf.Magnet(**c['kwargs'])
+        except BaseException as e:  # noqa
+            out.append({'construct': mg.errkind(e)})
+            continue
+        held = {'kt': m.kt, 'tr': m.tr, 'ws': m.ws, 'x': m.x}          # what a caller may have kept from earlier
+
+        def look():
+            """render FIRST (before any getter is touched), then read the fields, then parse the link back"""
+            o = {}
+            try:
+                o['uri'] = str(m)
+            except BaseException as e:  # noqa
+                o['uri_exc'] = type(e).__name__
+            try:
+                o['fields'] = fields(m)
+            except BaseException as e:  # noqa
+                o['fields_exc'] = type(e).__name__
+            if 'uri' in o:
+                try:
+                    o['parsed'] = fields(torf.Magnet.from_string(o['uri']))
+                except BaseException as e:  # noqa
+                    o['parse_exc'] = mg.errkind(e)
+            return o
+        steps = [look()]
+        for op in c['ops']:
+            res = 'ok'
+            try:
+                if op[0] == 'set':
+                    setattr(m, op[1], op[2])
+                elif op[0] in ('kt', 'tr', 'ws'):
+                    _apply_list(getattr(m, op[0]) if op[1] == 'getter' else held[op[0]], op[2], op[3], list(op[4]))
+                elif op[0] == 'x':
+                    _apply_dict(m.x if op[1] == 'getter' else held['x'], op[2], op[3], op[4])
+            except BaseException as e:  # noqa
+                res = mg.errkind(e)
+            o = look()
+            o['op'] = res
+            if op[0] == 'torrent':
+                try:
+                    t = m.torrent()
+                    o['torrent'] = {'name': t.name, 'size': t.size, 'trackers': [str(u) for u in t.trackers.flat],
+                                    'webseeds': [str(u) for u in t.webseeds], 'infohash': t.infohash}
+                except BaseException as e:  # noqa
+                    o['torrent'] = {'exc': mg.errkind(e)}
+            steps.append(o)
+        out.append({'construct': 'ok', 'steps': steps})
+    return out
+
+
+def eval_histories(ctx, drv, cases):
+    torf = common.import_torf()
+    from torf import _utils
+    obs = [o for ch in common.pmap(_run_hist_chunk, common.split(cases, common.NPROC * 4)) for o in ch]
+    todo, reqs = [], []
+    for c, o in zip(cases, obs):
+        if o['construct'] != 'ok':
+            ctx.case(kind='history/not-constructible:' + o['construct'])
+            continue
+        for k, st in enumerate(o['steps']):
+            f = st.get('fields')
+            judged = f is not None and in_scope(f) and all(isinstance(x, str) for x in (f['kt'] or []))
+            todo.append((c, k, st, judged))
+            if judged:
+                reqs.append({'op': 'c13.roundtrip', 'm': _mjson(f), 'valid': _valid_urls(_utils, f)})
+    replies = iter(drv.run(reqs))
+    dead = set()
+    for c, k, st, judged in todo:
+        key = id(c)
+        r = next(replies) if judged else None
+        if key in dead:
+            continue
+        op = (['construct'] + c['ops'])[k] if k else ['construct']
+        if k == len(c['ops']):
+            ctx.case(key=('h', json.dumps(c, sort_keys=True, default=str)), nontrivial=True,
+                     kind='history/%d-steps' % len(c['ops']))
+        ctx.dist['history-step/' + (op[0] if op[0] in ('set', 'torrent', 'noop', 'construct') else op[0] + '.' + op[2] + '/' + op[1])] += 1
+        if not judged:
+            ctx.dist['history-step/outside-quantifier(surrogate|keyword whitespace|xl>=10^4300|non-str keyword)'] += 1
+            continue
+        f, uri = st['fields'], st.get('uri')
+        case = {'kind': 'history', 'kwargs': c['kwargs'], 'ops': c['ops'], 'step': k, 'op': op, 'fields': f}
+        if len(ctx.samples) < 8 and ctx.dist['sampled-history'] < 2 and k >= 2 and op[0] == 'kt' and r['hyp']:
+            ctx.dist['sampled-history'] += 1
+            ctx.sample({'history': c, 'step': k, 'fields_now': f, 'uri': uri, 'parsed': st.get('parsed')}, limit=10)
+        if uri is None:
+            ctx.violation('str(magnet) raised after step %d of a history on one magnet' % k, case, 'a string',
+                          {'uri_exc': st.get('uri_exc')}, finding_matchers=MATCHERS)
+            dead.add(key)
+            continue
+        if st.get('parsed') != f:
+            observed = ({'parse_exc': st['parse_exc']} if 'parse_exc' in st else
+                        {'parsed': st['parsed'], 'differs': _diff(f, st['parsed'])})
+            fid = ctx.violation('history on one magnet object, after step %d (%s): Magnet.from_string(str(m)) does not give back '
+                                'the fields m has now' % (k, ' '.join(str(x) for x in op[:3])), case, f, observed,
+                                finding_matchers=MATCHERS)
+            if fid is None:
+                dead.add(key)
+                continue
+        if 'torrent' in st:
+            exp_t = {'name': f['dn'], 'size': f['xl'] or 0, 'trackers': f['tr'], 'webseeds': f['ws']}
+            got = st['torrent']
+            if any(got.get(x) != v for x, v in exp_t.items()):
+                ctx.violation('history on one magnet object, step %d: torrent() does not show the name, size, trackers and '
+                              'webseeds the magnet has now' % k, case, exp_t, got, finding_matchers=MATCHERS)
+                dead.add(key)
+                continue
+        # --- model: str(m) is the rendering of the fields held NOW (C13_render_history_independent; the model renders
+        #     every constructible state, also outside WF: as_ and x. parameters included)
+        muri = mg.uncps(r['model']['uri'])
+        if r['hyp'] and (not r['specEq'] or 'ok' not in r['model']['parsed']):
+            ctx.machinery_error('model round trip fails on a WF state although C13_parse_render is proved', case)
+            dead.add(key)
+        elif muri != uri:
+            ctx.corr_break('c13.render(history)', case, muri, uri)
+            dead.add(key)
+
+
 # ------------------------------------------------------------------ parser model on mangled links
 def mangle(rng, uri):
     r = rng.random()
@@ -467,6 +717,22 @@ def gen_torrent(rng):
     return t
 
 
+ENV_NAMES = ['Héllo Wörld', 'ñandú ß', 'Привет мир', 'Ελληνικά', '日本語 テキスト', '中文名字', '한국어', 'a\U0001F600b', '\U00010348',
+             'mixed é ж 日 \U0001F600', 'plain ascii', 'a&b=c+d%e#f', 'ı İ ſ K', '€uro “quotes”', 'e\u0301 combining', '\xa0nbsp\xa0',
+             'n\udcffx', '\udce9t\udce9', 'ok \udc80 mixed é']      # the last three: undecodable file names (os.fsdecode)
+
+
+def gen_env_torrent(rng):
+    t = gen_torrent(rng)
+    r = rng.random()
+    if r < 0.75:
+        t['name'] = rng.choice(ENV_NAMES)
+    elif r < 0.9:
+        t['name'] = ''.join(rng.choice(['é', 'ü', 'ж', 'Я', '日', '本', 'Ω', 'ß', '\U0001F600', 'a', 'b', ' ', '-', '€', 'ı'])
+                            for _ in range(rng.randint(1, 8))).strip() or 'é'
+    return t
+
+
 def _view(t):
     return {'infohash': t.infohash, 'name': t.name, 'size': t.size,
             'trackers': [str(u) for tier in t.trackers for u in tier], 'webseeds': [str(u) for u in (t.webseeds or [])]}
@@ -500,6 +766,7 @@ def _run_torrent_chunk(specs):
         try:
             m = t.magnet()
             o['magnet'] = fields(m)
+            o['magnet_ok'] = True
             o['uri'] = str(m)
             t2 = torf.Magnet.from_string(o['uri']).torrent()
             o['back'] = _view(t2)
@@ -527,15 +794,39 @@ def _run_torrent_chunk(specs):
     return out
 
 
-def eval_torrents(ctx, drv, specs):
+def run_torrents_in_envs(specs_by_env):
+    """{env label: specs} -> {env label: (report, observations)}; every label one child interpreter, in parallel"""
+    labels = list(specs_by_env)
+    jobs = [(lb, 'harness.props.c13', '_run_torrent_chunk', specs_by_env[lb]) for lb in labels]
+    res = common.pmap(fsenv.run_job, jobs) if len(jobs) > 1 else [fsenv.run_job(j) for j in jobs]
+    return {lb: (r['report'], r['result']) for lb, r in zip(labels, res)}
+
+
+def eval_torrents(ctx, drv, specs, env=None, obs=None):
+    """env = label of harness.impl.fsenv (the cases ran in a child interpreter with that locale / file-system encoding;
+    `obs` then holds what it observed); the specification and the model do not mention the environment at all"""
     torf = common.import_torf()
     from torf import _utils
-    obs = [o for ch in common.pmap(_run_torrent_chunk, common.split(specs, common.NPROC * 4)) for o in ch]
+    if obs is None and env is not None:
+        obs = run_torrents_in_envs({env: specs})[env][1]
+    if obs is None:
+        obs = [o for ch in common.pmap(_run_torrent_chunk, common.split(specs, common.NPROC * 4)) for o in ch]
+    tag = '' if env is None else '@' + env
     todo = [(s, o) for s, o in zip(specs, obs) if 'torrent' in o and not any(mg.has_surrogate(x) for x in [o['torrent']['name']])]
     for s, o in zip(specs, obs):
         if 'torrent' not in o:
-            ctx.case(kind='torrent/not-exportable')
+            ctx.case(kind='torrent/not-exportable' + tag)
             ctx.dist['torrent-setup:' + o['setup_exc'].split(':')[0]] += 1
+        elif mg.has_surrogate(o['torrent']['name']):
+            # an exportable torrent whose name holds a lone surrogate (undecodable file name): no Lean string for it, the
+            # round trip is judged against the property directly
+            t = o['torrent']
+            case = {'kind': 'torrent', 'spec': s, 'torrent': t, 'env': env}
+            ctx.case(key=('t-sur', env, json.dumps(s, sort_keys=True)), nontrivial=True, kind='torrent/surrogate-name' + tag)
+            if o.get('back') != t:
+                ctx.violation('Torrent.magnet() -> str -> from_string -> torrent() does not preserve infohash, name, size, '
+                              'tracker order and webseeds (exportable torrent whose name comes from an undecodable file name)',
+                              case, t, {k: o.get(k) for k in ('back', 'exc', 'uri', 'magnet_ok')}, finding_matchers=MATCHERS)
     reqs = []
     for s, o in todo:
         t = o['torrent']
@@ -546,14 +837,15 @@ def eval_torrents(ctx, drv, specs):
     replies = drv.run(reqs)
     for (s, o), r in zip(todo, replies):
         t = o['torrent']
-        case = {'kind': 'torrent', 'spec': s, 'torrent': t}
-        ctx.case(key=('t', o.get('uri')), nontrivial=len(t['trackers']) > 1 or '%' in (o.get('uri') or ''), kind='torrent/' + ('ok' if r['hyp'] else 'outside-hyp'))
+        case = {'kind': 'torrent', 'spec': s, 'torrent': t, 'env': env}
+        ctx.case(key=('t', env, o.get('uri'), json.dumps(s, sort_keys=True) if o.get('uri') is None else None),
+                 nontrivial=len(t['trackers']) > 1 or '%' in (o.get('uri') or ''), kind='torrent/' + ('ok' if r['hyp'] else 'outside-hyp') + tag)
         if len(ctx.samples) < 6:
             ctx.sample({'torrent': t, 'uri': o.get('uri')})
         if o.get('back') != t:
             ctx.violation('Torrent.magnet() -> str -> from_string -> torrent() does not preserve infohash, name, size, '
-                          'tracker order and webseeds', case, t, {k: o.get(k) for k in ('back', 'exc', 'uri')},
-                          finding_matchers=MATCHERS)
+                          'tracker order and webseeds' + (' (child interpreter with environment %s)' % env if env else ''),
+                          case, t, {k: o.get(k) for k in ('back', 'exc', 'uri', 'magnet_ok')}, finding_matchers=MATCHERS)
             continue
         if o.get('torrent_after_edit') != t or o.get('uri2') != o.get('uri') or o.get('back2') != t:
             ctx.violation('second export of an unchanged torrent in one process: after the magnet parsed from the first link '
@@ -578,6 +870,24 @@ def eval_torrents(ctx, drv, specs):
             ctx.corr_break('c13.torrent', case, mg.uncps(m['uri']), o['uri'])
 
 
+def eval_torrent_envs(ctx, drv, scale=1.0):
+    """the torrent -> magnet -> torrent clauses once per locale / file-system encoding (child interpreters)"""
+    rng = ctx.rng
+    fixed = [dict(gen_torrent(rng), name=n) for n in ENV_NAMES]
+    by_env = {e[0]: fixed + [gen_env_torrent(rng) for _ in range(int(ctx.n(60, 1500) * scale))] for e in fsenv.ENVS}
+    res = run_torrents_in_envs(by_env)
+    reports = {}
+    for lb in by_env:
+        report, obs = res[lb]
+        reports[lb] = report
+        eval_torrents(ctx, drv, by_env[lb], env=lb, obs=obs)
+    ctx.notes.setdefault('environments', reports)
+    exp_fs = {'C-ascii-fs': 'ascii', 'C-utf8-mode': 'utf-8', 'shadow-latin-1': 'latin-1', 'shadow-gbk': 'gbk'}
+    for lb, fs in exp_fs.items():
+        if reports[lb]['fs'].lower() != fs:
+            ctx.machinery_error('environment %s did not get the file-system encoding %s: %r' % (lb, fs, reports[lb]))
+
+
 # ------------------------------------------------------------------ entry points
 def run(ctx, drv):
     ctx.notes['rule'] = RULE
@@ -589,6 +899,12 @@ def run(ctx, drv):
         'Python strings with lone surrogates cannot be rendered (UnicodeEncodeError) and are outside the claim; '
         'xl >= 10^4300 cannot be rendered (CPython int->str limit) and is outside the claim',
         'bytes.decode(errors="replace") is only modelled on valid UTF-8 (always the case for rendered links)',
+        'histories on one magnet: an edit is whatever the real setter / list / dict method did (the fields are read back after '
+        'every step); the model renders the field values read back - it does not model MonitoredList or the setters (C14, C16)',
+        'locale / file-system encoding: real child environments by LC_ALL / PYTHONUTF8 / PYTHONCOERCECLOCALE / PYTHONIOENCODING; '
+        'legacy charsets are simulated by replacing os.fsencode, os.fsdecode, sys.getfilesystemencoding, '
+        'locale.getpreferredencoding, locale.getencoding process-wide in the child before torf is imported',
+        'torrent names with lone surrogates (undecodable file names) have no Lean string: judged against the property only',
     ]
     rng = ctx.rng
     for c in mg.corpus_cases('C13'):          # past failures first
@@ -606,7 +922,9 @@ def run(ctx, drv):
         except BaseException:  # noqa
             pass
     eval_parser(ctx, drv, [mangle(rng, u) for u in base])
-    eval_torrents(ctx, drv, [gen_torrent(rng) for _ in range(ctx.n(3000, 40000))])
+    eval_histories(ctx, drv, fixed_histories() + [gen_history(rng) for _ in range(ctx.n(2500, 40000))])
+    eval_torrents(ctx, drv, [gen_env_torrent(rng) for _ in range(ctx.n(300, 3000))] + [gen_torrent(rng) for _ in range(ctx.n(3000, 40000))])
+    eval_torrent_envs(ctx, drv)
     ctx.exhaustive = False
     for f in ctx.open_findings():
         if f['id'] not in ctx.known:
@@ -616,15 +934,19 @@ def run(ctx, drv):
 def search(ctx, drv):
     rng = ctx.rng
     eval_magnets(ctx, drv, [gen_kwargs(rng, findings_share=0.05) for _ in range(ctx.n(20000, 300000))])
+    eval_histories(ctx, drv, [gen_history(rng, findings_share=0.03) for _ in range(ctx.n(8000, 80000))])
     eval_torrents(ctx, drv, [gen_torrent(rng) for _ in range(ctx.n(4000, 40000))])
+    eval_torrent_envs(ctx, drv, scale=3.0)
 
 
 def _eval_case(ctx, drv, c):
     k = c.get('kind')
     if k == 'magnet':
         eval_magnets(ctx, drv, [c['kwargs']])
+    elif k == 'history':
+        eval_histories(ctx, drv, [{'kwargs': c['kwargs'], 'ops': c['ops']}])
     elif k == 'torrent':
-        eval_torrents(ctx, drv, [c['spec']])
+        eval_torrents(ctx, drv, [c['spec']], env=c.get('env'))
     elif k == 'parser':
         eval_parser(ctx, drv, [c['uri']])
     else:
